@@ -488,6 +488,9 @@ pub(crate) struct DrawState {
     pub(crate) move_cursor: bool,
     /// Controls how the multi progress is aligned if some of its progress bars get removed, default is `Top`
     pub(crate) alignment: MultiProgressAlignment,
+    /// True if the last draw erased lines without drawing anything, which leaves the cursor on
+    /// the (empty) line below the remaining output instead of at the end of its last line.
+    cursor_below: bool,
 }
 
 impl DrawState {
@@ -511,6 +514,10 @@ impl DrawState {
         } else {
             // Fork of console::clear_last_lines that assumes that the last line doesn't contain a '\n'
             let n = bar_count.as_usize();
+            if self.cursor_below && n > 0 {
+                // The lines to clear (see `LineAdjust::Clear`) end on the line above the cursor
+                term.move_cursor_up(1)?;
+            }
             term.move_cursor_up(n.saturating_sub(1))?;
             for i in 0..n {
                 term.clear_line()?;
@@ -579,6 +586,11 @@ impl DrawState {
         }
 
         term.flush()?;
+        if shift != VisualLines::default() || !self.lines.is_empty() {
+            self.cursor_below = false;
+        } else if *bar_count != VisualLines::default() {
+            self.cursor_below = true;
+        }
         *bar_count = real_height + shift;
 
         Ok(())
